@@ -77,7 +77,7 @@ def parseBTx (s : String) : Option GcsBuilder.Tx :=
   | _ => none
 
 def bErrTok : GcsBuilder.Err → String
-  | .pTooBig => "err:ptoobig" | .pUnset => "err:punset" | .mUnset => "err:munset"
+  | .pTooBig => "err:ptoobig" | .pUnset => "err:other" | .mUnset => "err:other"
   | .gcs e => buildErrTok e
 
 def run : Runner
